@@ -30,9 +30,16 @@ driver_open_device(struct Driver* driver,
     CHECK(Device_Ok == driver->open(driver, device_id, out));
 
     CHECK(*out);
-    CHECK(Device_Ok ==
-          driver->describe(driver, &out[0]->identifier, device_id));
     (*out)->driver = driver;
+    if (Device_Ok !=
+        driver->describe(driver, &out[0]->identifier, device_id)) {
+        LOGE("Failed to describe device %d. Closing it again.", (int)device_id);
+        // Don't leak the device the driver just opened.
+        (*out)->identifier.device_id = device_id;
+        driver->close(driver, *out);
+        *out = 0;
+        goto Error;
+    }
     return Device_Ok;
 Error:
     return Device_Err;
